@@ -1268,11 +1268,12 @@ def _register_fn(U):
                "16 state words (lo = words 0..7, hi = words 8..15): ")
     U["blake3_compress_in_place_portable_fn"] = _fn(
         "blake3_compress_in_place_portable", pre_doc + "cv'[i] == lo[i] ^ hi[i] for all 8 words: the feed-forward, and all "
-        "five arguments reach compress_pre unchanged", replace=["compress_pre"], inlined=[], solver="minisat2")
+        "five arguments reach compress_pre unchanged", replace=["compress_pre"], inlined=[], solver="minisat2",
+        defs=["-DVERIF_FN", "-DVERIF_FN_PORTABLE"])
     U["blake3_compress_xof_portable_fn"] = _fn(
         "blake3_compress_xof_portable", pre_doc + "out word i == lo[i] ^ hi[i], out word 8 + i == hi[i] ^ cv[i] (little "
         "endian), i < 8; cv and block are not written (frame)", replace=["compress_pre"], inlined=["store32"],
-        solver="minisat2")
+        solver="minisat2", defs=["-DVERIF_FN", "-DVERIF_FN_PORTABLE"])
     U["blake3_compress_in_place_fn"] = _fn(
         "blake3_compress_in_place",
         "every dispatch branch: cv' == UFcip(cv, block[0..64), block_len, counter, flags) -- all five "
